@@ -6,7 +6,8 @@
 Results are merged into /verif/seeded/<ID>/<N>/meta.json next to patch.diff and demo.py."""
 import json, os, shutil, subprocess, sys, xml.etree.ElementTree as ET
 
-SEED = "/tmp/seed"
+SEED = os.environ.get("SEED_SRC", "/tmp/seed")
+OFFSET = int(os.environ.get("SEED_OFFSET", "0"))      # round 2: source index n is kept as n + OFFSET
 KEEP = "/verif/seeded"
 
 
@@ -15,7 +16,7 @@ def sh(cmd, **kw):
 
 
 def load_meta(pid, n):
-    d = os.path.join(KEEP, pid, str(n))
+    d = os.path.join(KEEP, pid, str(int(n) + OFFSET))
     os.makedirs(d, exist_ok=True)
     src = os.path.join(SEED, pid, "out")
     for a, b in (("patch_%s.diff" % n, "patch.diff"), ("demo_%s.py" % n, "demo.py")):
